@@ -153,10 +153,22 @@ func c07Case(c *core.Ctx, rng *rand.Rand, dir string, idx int, t0 time.Time, wea
 	var bg sync.WaitGroup
 	bg.Add(1)
 	delay := time.Duration(rng.Intn(3)*rng.Intn(100)) * time.Microsecond
+	var hold int32 // 1: the consumer receives nothing (the reader parks in a send) until the clients are done
+	if rng.Intn(3) == 0 {
+		hold = 1
+	}
 	go func() {
 		defer bg.Done()
 		evc, erc := w.Events, w.Errors
 		for evc != nil || erc != nil {
+			if atomic.LoadInt32(&hold) == 1 {
+				select {
+				case <-stopAll:
+					return
+				case <-time.After(200 * time.Microsecond):
+				}
+				continue
+			}
 			select {
 			case _, ok := <-evc:
 				if !ok {
@@ -296,6 +308,7 @@ func c07Case(c *core.Ctx, rng *rand.Rand, dir string, idx int, t0 time.Time, wea
 	}
 	close(start)
 	wg.Wait()
+	atomic.StoreInt32(&hold, 0)
 	if d, _ := hangDump.Load().(string); d != "" {
 		cls := hangClass(d)
 		close(stopAll)
@@ -370,6 +383,33 @@ func c07Case(c *core.Ctx, rng *rand.Rand, dir string, idx int, t0 time.Time, wea
 		}
 		close(stopDrain)
 		<-drainDone
+	}
+	if !weak {
+		// one more WatchList after everything has settled, as part of the history: whatever
+		// interleaving happened, the set it shows must be explained by the calls that returned
+		var O linOut
+		call := time.Since(t0).Nanoseconds()
+		l := w.WatchList()
+		if l == nil {
+			O.List = -1
+		} else {
+			sort.Strings(l)
+			for j, p := range l {
+				b, known := pidx[p]
+				if !known {
+					O.List = -3
+					strays.Store("WatchList shows a path that was never added: "+p, true)
+					break
+				}
+				if j > 0 && l[j-1] == p {
+					O.List = -2
+					strays.Store("WatchList shows a path twice: "+p, true)
+					break
+				}
+				O.List |= 1 << b
+			}
+		}
+		ops = append(ops, porcupine.Operation{ClientId: nc, Input: linIn{"list", 0}, Call: call, Output: O, Return: time.Since(t0).Nanoseconds()})
 	}
 	core.WithWatchdog(twin.WatchdogTimeout, func() { w.Close() })
 	// overlap statistics
